@@ -319,6 +319,30 @@ structure World.WF (w : World) : Prop where
   targets : ∀ p ∈ w.procs, ∀ fds, p.2 = some fds → ∀ e ∈ fds, e.2.WF
   v6 : w.v6 = false → ∀ s ∈ w.socks, s.fam ≠ .inet6
 
+/-- executable form of `Sock.WF` (the driver answers `unspecified` outside it) -/
+def Sock.wf (s : Sock) : Bool :=
+  match s.fam with
+  | .unix => decide (s.typ ≤ 9) && (match s.path with
+                                    | some p => !p.contains 10
+                                    | none => true)
+  | _ =>
+    (s.lip.length == (if s.fam == .inet4 then 4 else 16)) && (s.rip.length == (if s.fam == .inet4 then 4 else 16))
+    && s.lip.all (fun b => decide (b < 256)) && s.rip.all (fun b => decide (b < 256))
+    && decide (s.lport < 65536) && decide (s.rport < 65536) && (s.typ == 1 || s.typ == 2)
+    && (s.typ != 1 || (decide (1 ≤ s.state) && decide (s.state ≤ 11)))
+
+def Target.wf : Target → Bool
+  | .other t => !startsWith socketPrefix t
+  | _ => true
+
+/-- executable form of `World.WF` -/
+def World.wf (w : World) : Bool :=
+  w.socks.all Sock.wf
+  && w.procs.all (fun p => match p.2 with
+      | none => true
+      | some fds => fds.all fun e => e.2.wf)
+  && (w.v6 || w.socks.all fun s => s.fam != .inet6)
+
 /-! ## Descriptors and processes that cannot be inspected
 
   Between `listdir` and `readlink` a descriptor may be closed, its process may exit or change
